@@ -93,6 +93,7 @@ type runner struct {
 	st0     string
 	first   []int // per partition: index of the first record the whole read covers
 	aborted bool  // a query failed: reported through the oracle, the script stops
+	hung    bool  // a query did not return: the server is left behind (its Stop could block)
 	// distribution
 	kinds       map[string]int
 	edgePage    bool
@@ -378,7 +379,30 @@ func (r *runner) expected(start []int, limit int) []xev {
 	return all
 }
 
+// doQuery sends the request under a watchdog: a request that does not come back within 30 s (a request
+// with WaitTimeout=1 that finds nothing takes 1 s) is reported as a hang
 func (r *runner) doQuery(req *api.QueryRequest, rpc bool) (*api.QueryResult, error) {
+	type out struct {
+		res *api.QueryResult
+		err error
+	}
+	ch := make(chan out, 1)
+	go func() {
+		res, err := r.doQuery0(req, rpc)
+		ch <- out{res, err}
+	}()
+	select {
+	case o := <-ch:
+		return o.res, o.err
+	case <-time.After(30 * time.Second):
+		r.hung = true
+		return nil, errHang
+	}
+}
+
+var errHang = fmt.Errorf("the request did not return within 30s")
+
+func (r *runner) doQuery0(req *api.QueryRequest, rpc bool) (*api.QueryResult, error) {
 	ctx := context.Background()
 	if rpc {
 		var res api.QueryResult
@@ -456,7 +480,11 @@ func (r *runner) exec(st Step, req api.QueryRequest) (*api.QueryResult, error) {
 	res, err := r.doQuery(&req, st.Rpc)
 	if err != nil {
 		// the implementation refused or failed a well-formed request: a verdict, not a harness failure
-		r.fail("query-error", fmt.Sprintf("page %d kind=%s limit=%d pos=%q: %v", len(r.pages)+1, st.Kind, st.Limit, req.Pos, err))
+		cls := "query-error"
+		if err == errHang {
+			cls = "query-hang"
+		}
+		r.fail(cls, fmt.Sprintf("page %d kind=%s limit=%d pos=%q: %v", len(r.pages)+1, st.Kind, st.Limit, req.Pos, err))
 		r.aborted = true
 		r.coqApps = r.coqApps[:len(r.coqApps)-1]
 		return &api.QueryResult{NextQueryRequest: req}, nil
